@@ -25,8 +25,10 @@ Conventions
   is `Dict.insert` (in place when the key exists, appended otherwise); a `.items()` that repeats a
   key (a `dict` subclass) is a `Dict` with a repeated key;
 * errors are values (`Except Err`): the exception classes the code raises;
-* an array is seen in the *axis-major view*: the list of its slices along the working axis, every
-  slice flattened (`List (List K)`); a pytree is the list of its leaves in `jax.tree_util` order
+* an array is seen in the *axis-major view* (`Leaf`): its shape with the working axis removed
+  (`off`, what `jnp.concatenate` / `jnp.stack` validate) and the list of its slices along the working
+  axis, every slice flattened (`List (List K)`); arrays of rank 0 have no such view and are outside
+  the model (`jnp.concatenate` refuses them); a pytree is the list of its leaves in `jax.tree_util` order
   (`tree_flatten` / `tree_unflatten` themselves are executed, not modelled: a wrong number of
   leaves is `Err.tree`).
 -/
@@ -122,7 +124,9 @@ def Dict.insert (k : List α) (v : Val α β) : Dict α β → Dict α β
 
 abbrev Flat (α β : Type) := List (List α × β) × List (List α)
 
-/-- the two duplicate checks at the end of `flatten_dict` (`np.unique(..., return_counts=True)`) -/
+/-- the two duplicate checks at the end of `flatten_dict` (`collections.Counter` over the Python
+ strings: keys are compared exactly, character by character, trailing NUL characters included; before
+ the repair 0ddc902 a numpy unicode array dropped trailing NULs, so `'a'` and `'a\x00'` looked equal) -/
 def dupCheck (r : Flat α β) : Except Err (Flat α β) :=
   if ¬ (r.1.map Prod.fst).Nodup then .error .dup
   else if ¬ r.2.Nodup then .error .dup
@@ -296,19 +300,31 @@ end Dicts
 section Arrays
 variable {K : Type}
 
-/-- all entries equal -/
-def allSame : List Nat → Bool
-  | [] => true
-  | a :: as => as.all (· == a)
+/-- a leaf array seen along the working axis `axis`: `off` is its shape with the working axis removed
+ (`shape[:axis] + shape[axis+1:]`: the sizes that `jnp.concatenate` compares one by one, the rank
+ included), `slices` are its slices along the axis, every slice flattened (`off.prod` entries each,
+ see `Leaf.WF`).  The shape of the array is `off` with `slices.length` inserted at the axis. -/
+structure Leaf (K : Type) where
+  off : List Nat
+  slices : List (List K)
+  deriving DecidableEq, Repr
 
-/-- widths of all slices of all leaves: the off-axis sizes that `jnp.concatenate` compares -/
-def rowWidths (leaves : List (List (List K))) : List Nat := leaves.flatten.map List.length
+/-- a whole array: its shape and its entries in row-major order (a leaf given to `stack_pytree`) -/
+structure Arr (K : Type) where
+  shape : List Nat
+  data : List K
+  deriving DecidableEq, Repr
 
-/-- `pack_pytree`: `none` for a tree without leaves, `jnp.concatenate(leaves, axis)` otherwise -/
-def pack (leaves : List (List (List K))) : Except Err (Option (List (List K))) :=
-  if leaves.isEmpty then .ok none
-  else if allSame (rowWidths leaves) then .ok (some leaves.flatten)
-  else .error .shape
+/-- `pack_pytree`: `none` for a tree without leaves, `jnp.concatenate(leaves, axis)` otherwise.
+ `lax.concatenate` raises `TypeError` unless all leaves have the rank and the off-axis sizes of the
+ first one (a leaf without slices is compared like any other) -/
+def pack (leaves : List (Leaf K)) : Except Err (Option (Leaf K)) :=
+  match leaves with
+  | [] => .ok none
+  | l :: ls =>
+    if ls.all (fun m => decide (m.off = l.off)) then
+      .ok (some ⟨l.off, l.slices ++ (ls.map Leaf.slices).flatten⟩)
+    else .error .shape
 
 /-- `np.cumsum` -/
 def cumsumFrom (acc : Nat) : List Nat → List Nat
@@ -328,35 +344,41 @@ def splitIdxFrom (arr : List (List K)) (start : Nat) : List Nat → List (List (
 def splitIdx (arr : List (List K)) (idx : List Nat) : List (List (List K)) := splitIdxFrom arr 0 idx
 
 /-- `unpack_to_pytree(arr, shapes, axis)`, `sizes = [s[axis] for s in shapes]`:
- `jnp.split(arr, cumsum(sizes)[:-1])`; without shapes the single piece does not fit the empty tree -/
-def unpack (arr : List (List K)) (sizes : List Nat) : Except Err (List (List (List K))) :=
+ `jnp.split(arr, cumsum(sizes)[:-1])` (every piece keeps the off-axis shape of `arr`); without shapes
+ the single piece does not fit the empty tree -/
+def unpack (arr : Leaf K) (sizes : List Nat) : Except Err (List (Leaf K)) :=
   if sizes.isEmpty then .error .tree
-  else .ok (splitIdx arr (cumsum sizes).dropLast)
+  else .ok ((splitIdx arr.slices (cumsum sizes).dropLast).map (fun s => ⟨arr.off, s⟩))
 
-/-- `stack_pytree`: in the view along the new axis the slices are the flattened leaves -/
-def stack (leaves : List (List K)) : Except Err (Option (List (List K))) :=
-  if leaves.isEmpty then .ok none
-  else if allSame (leaves.map List.length) then .ok (some leaves)
-  else .error .shape
+/-- `stack_pytree`: `jnp.stack` raises unless all leaves have the shape of the first one (ranks
+ included); in the view along the new axis the slices are the flattened leaves and the off-axis shape
+ is their common shape -/
+def stack (leaves : List (Arr K)) : Except Err (Option (Leaf K)) :=
+  match leaves with
+  | [] => .ok none
+  | l :: ls =>
+    if ls.all (fun m => decide (m.shape = l.shape)) then .ok (some ⟨l.shape, l.data :: ls.map Arr.data⟩)
+    else .error .shape
 
 /-- `jnp.split(arr, n, axis)` into `n` equal sections (`n` divides the size; here section size 1) -/
 def sections (arr : List (List K)) : List (List (List K)) :=
   (List.range arr.length).map (fun i => slice arr i (i + 1))
 
-/-- `unstack_to_pytree(arr, shapes, axis)` with a template of `n` leaves -/
-def unstack (arr : List (List K)) (n : Nat) : Except Err (List (List K)) :=
-  if arr.length = 0 then .error .zerodiv
-  else if arr.length ≠ n then .error .tree
-  else .ok ((sections arr).map List.flatten)
+/-- `unstack_to_pytree(arr, shapes, axis)` with a template of `n` leaves: every section is squeezed
+ to the off-axis shape of `arr` -/
+def unstack (arr : Leaf K) (n : Nat) : Except Err (List (Arr K)) :=
+  if arr.slices.length = 0 then .error .zerodiv
+  else if arr.slices.length ≠ n then .error .tree
+  else .ok ((sections arr.slices).map (fun s => ⟨arr.off, s.flatten⟩))
 
 /-- `slice(0, idx)` / `slice(idx, None)` on an axis of size `n`: the cut position -/
 def pyIndex (n : Nat) (idx : Int) : Nat :=
   if idx < 0 then (idx + n).toNat else min idx.toNat n
 
 /-- `split_along_axis(tree, idx, axis)` (guards: `sliceGuard`) -/
-def splitAlong (leaves : List (List (List K))) (idx : Int) :
-    List (List (List K)) × List (List (List K)) :=
-  (leaves.map (fun l => l.take (pyIndex l.length idx)), leaves.map (fun l => l.drop (pyIndex l.length idx)))
+def splitAlong (leaves : List (Leaf K)) (idx : Int) : List (Leaf K) × List (Leaf K) :=
+  (leaves.map (fun l => ⟨l.off, l.slices.take (pyIndex l.slices.length idx)⟩),
+   leaves.map (fun l => ⟨l.off, l.slices.drop (pyIndex l.slices.length idx)⟩))
 
 /-- the guards of `slice_along_axis` on the ranks of the leaves -/
 def sliceGuard (ndims : List Nat) (axis : Int) (expectSame : Bool) : Except Err Unit :=
@@ -365,30 +387,39 @@ def sliceGuard (ndims : List Nat) (axis : Int) (expectSame : Bool) : Except Err 
   else if ndims.any (fun nd => !(decide (-(nd : Int) ≤ axis) && decide (axis < (nd : Int)))) then .error .value
   else .ok ()
 
-/-- `concat_along_axis(trees, axis)` = `tree_map(lambda *xs: jnp.concatenate(xs, axis), *trees)` -/
-def concat (trees : List (List (List (List K)))) : Except Err (List (List (List K))) :=
+/-- leaf-wise `jnp.concatenate((a, b), axis)` of two trees whose leaves agree off the axis -/
+def catLeaves (t u : List (Leaf K)) : List (Leaf K) :=
+  List.zipWith (fun a b => ⟨a.off, a.slices ++ b.slices⟩) t u
+
+/-- the leaves of `u` have, position by position, the off-axis shapes of the leaves of `t` -/
+def offsAgree (t u : List (Leaf K)) : Bool :=
+  (List.zipWith (fun a b => decide (b.off = a.off)) t u).all id
+
+/-- `concat_along_axis(trees, axis)` = `tree_map(lambda *xs: jnp.concatenate(xs, axis), *trees)`:
+ `tree_map` needs a first tree and equal structures; then, leaf position by leaf position,
+ `jnp.concatenate` needs the rank and the off-axis sizes of the first tree's leaf -/
+def concat (trees : List (List (Leaf K))) : Except Err (List (Leaf K)) :=
   match trees with
   | [] => .error .notrees
   | t :: ts =>
     if ts.any (fun u => u.length != t.length) then .error .tree
-    else
-      let r := ts.foldl (List.zipWith (· ++ ·)) t
-      if r.all (fun leaf => allSame (leaf.map List.length)) then .ok r else .error .shape
+    else if ts.all (offsAgree t) then .ok (ts.foldl catLeaves t)
+    else .error .shape
 
 /-- `split_axis(tree, axis, keep_dims=True)`: one tree per index along the axis.
  `len(set(a.shape[axis] for a in arrays)) != 1` = no leaf, or two leaves of different size -/
-def splitAxis (leaves : List (List (List K))) : Except Err (List (List (List (List K)))) :=
-  match leaves.map List.length with
+def splitAxis (leaves : List (Leaf K)) : Except Err (List (List (Leaf K))) :=
+  match leaves.map (fun l => l.slices.length) with
   | [] => .error .value
   | n :: rest =>
     if rest.all (· == n) then
       if n = 0 then .error .zerodiv
-      else .ok ((List.range n).map (fun i => leaves.map (fun l => slice l i (i + 1))))
+      else .ok ((List.range n).map (fun i => leaves.map (fun l => ⟨l.off, slice l.slices i (i + 1)⟩)))
     else .error .value
 
 /-- `split_axis(tree, axis, keep_dims=False)`: the singleton axis squeezed away -/
-def splitAxisSqueeze (leaves : List (List (List K))) : Except Err (List (List (List K))) :=
-  (splitAxis leaves).map (fun ts => ts.map (fun t => t.map List.flatten))
+def splitAxisSqueeze (leaves : List (Leaf K)) : Except Err (List (List (Arr K))) :=
+  (splitAxis leaves).map (fun ts => ts.map (fun t => t.map (fun l => ⟨l.off, l.slices.flatten⟩)))
 
 end Arrays
 
